@@ -16,7 +16,7 @@ CHUNK = {'quick': 1, 'thorough': 4}
 TIMEOUT = 1800
 import fractions
 
-FIXED_VALUES = [1.5, 3, np.float32(2.5), np.int64(4), fractions.Fraction(1, 4), np.float64(-0.5), True]
+FIXED_VALUES = [0.1, 16777217, np.float32(2.5), np.int64(4), fractions.Fraction(1, 3), np.float64(-0.7), True]      # 0.1 and 2**24+1 are not float32 numbers
 OPS = ['free_auto', 'free_named', 'uniform', 'norm', 'fixed', 'link_first', 'link_last',
        'auto_link_last', 'dup', 'future_auto_name', 'self_link', 'auto_self_link',
        'link_undeclared', 'nonstring_key', 'list_dist']
@@ -146,8 +146,9 @@ def _check_transforms(prior, ref, rng, bad):
         return 0
     u2, ext = _inputs(d, rng)
     n_checks = 0
-    for u in (u2, u2[3], ext, ext[4]):
+    for u in (u2, u2[3], ext, ext[4], u2.astype(np.float32)):
         u_in = u.copy()
+        single = u.dtype != np.float64
         try:
             phys = prior.unit_to_physical(u)
             dic = prior.unit_to_dictionary(u)
@@ -164,7 +165,12 @@ def _check_transforms(prior, ref, rng, bad):
         interior = (u is u2) or (u.ndim == 1 and np.all((u >= 1e-3) & (u <= 1 - 1e-3)))
         for i, (k, dist) in enumerate(free):
             col = phys[..., i]
-            if interior:
+            if interior and single:
+                want32 = dist.ppf(u[..., i].astype(float))
+                if not np.all(np.abs(np.asarray(col, dtype=float) - want32) <= 1e-5 * (1 + np.abs(want32))):
+                    bad('prior.transform-value', 'free parameter %d (%s) is not the inverse CDF of its own unit coordinate '
+                        '(float32 input)' % (i, k))
+            elif interior:
                 if not (_close(col, dist.ppf(u[..., i])) or _close(col, dist.isf(1 - u[..., i]))):
                     bad('prior.transform-value', 'free parameter %d (%s) is not the inverse CDF of its '
                         'own unit coordinate' % (i, k), got=np.asarray(col).tolist(),
@@ -186,7 +192,7 @@ def _check_transforms(prior, ref, rng, bad):
                 vals[k] = phys[..., fi]
                 fi += 1
             elif kind == 'fixed':
-                vals[k] = np.full(np.shape(phys[..., 0]), float(p))
+                vals[k] = np.full(np.shape(phys[..., 0]), float(p))      # exactly the declared number, whatever the input dtype
         for k, kind, p in ref.items:
             want = vals[ref.target(k)]
             gotv = np.asarray(dic[k])
